@@ -76,3 +76,29 @@ Example C14_impl_ex_direct_occurs : unify_value 20 X (g1 X) [] = Raise OccursChe
 Proof. vm_compute. reflexivity. Qed.
 Example C14_impl_ex_clash : unify_value 20 (f2 X X) (f2 a_ b_) [] = Raise UnifyError.
 Proof. vm_compute. reflexivity. Qed.
+
+(* ---- an a-priori class inside the guard: ONE SIDE GROUND ----
+   (every binding is then ground and a variable is only ever rebound to the value it already has) *)
+Theorem C14_impl_one_side_ground_solved : forall fuel s t r H, nonone s = true -> nonone t = true ->
+  pground s = true \/ pground t = true ->
+  unify_value fuel s t [] = Ret r H -> solved H = true.
+Proof. exact unify_value_one_side_ground_solved. Qed.
+Print Assumptions C14_impl_one_side_ground_solved.
+
+(* hence, for such pairs, whenever the run ends: failure iff no mgu, and on success the resolved dictionary is an mgu *)
+Theorem C14_impl_one_side_ground_correct : forall fuel s t, nonone s = true -> nonone t = true ->
+  pground s = true \/ pground t = true ->
+  unify_value fuel s t [] <> OutOfFuel ->
+  (is_raise (unify_value fuel s t []) = true <-> mgu (E s) (E t) = None) /\
+  (forall r H, unify_value fuel s t [] = Ret r H ->
+     unifies (sigma H) (E s) (E t) /\ resolve H r = resolve H s /\
+     (forall th, unifies th (E s) (E t) -> forall u, inst th (inst (sigma H) u) = inst th u)).
+Proof. exact unify_value_one_side_ground_correct. Qed.
+Print Assumptions C14_impl_one_side_ground_correct.
+
+Example C14_impl_ex_ground :
+  match unify_value 20 (f2 X (g1 Y)) (f2 a_ (g1 b_)) [] with
+  | Ret r H => (solved H, resolve H r)
+  | _ => (false, TVar 0)
+  end = (true, E (f2 a_ (g1 b_))).
+Proof. vm_compute. reflexivity. Qed.
